@@ -206,6 +206,14 @@ def emit(name, *args):
     return None
 
 
+def run_coro(c):
+    import asyncio
+    import inspect
+    if inspect.iscoroutine(c):
+        return asyncio.new_event_loop().run_until_complete(c)
+    return c
+
+
 def clone_class(cls):
     """a fresh copy of a class definition (native counterpart of the interpreter's clone_class)"""
     return type(cls.__name__, cls.__bases__, dict(cls.__dict__))
